@@ -71,6 +71,29 @@ CHECKS = {
         technique="Coq proof (induction over assignment histories) + differential correspondence "
                   "evaluated by vm_compute",
         design_ref="DESIGN.md section 6/C02"),
+    'C01': dict(
+        text="Theorem (Props/C01.v, invariant proof by induction over arbitrary step lists): for EVERY "
+             "circuit, every number/order of set_output steps - also interleaved with evaluations "
+             "(CBlock->SBlock event feedback) - and every choice of the next block, at every idle point "
+             "every combinational block is consistent with its function of the current outputs; "
+             "specifications of Not/And/Or/Xor/Override/Compare (hysteresis fixpoint). Tie: the real "
+             "simulator's schedule (wrappers around set_output/calc_output/eval_block of the instances) "
+             "and output snapshots after wait_init() and after every burst must be accepted by the "
+             "executable acceptor, and the consistency monitor is evaluated on the observed snapshots.",
+        technique="Coq proof (simulation invariant, induction over schedules) + trace acceptance and "
+                  "monitor evaluated by vm_compute",
+        design_ref="DESIGN.md section 6/C01"),
+    'C10': dict(
+        text="Theorems (Props/C10.v): no accepted schedule contains more than 3*|blocks| evaluations "
+             "in one burst, the instability error is raised exactly at the (limit+1)-th attempt, a "
+             "non-idle state always has an enabled step, idle => consistent. The 'acyclic networks "
+             "with few paths are never reported unstable' clause is decided by the monitor on every "
+             "observed run (path sums computed inside Coq) - its unbounded proof is not finished, see "
+             "DESIGN.md. Tie: cyclic networks, event feedback loops and layered acyclic networks run on "
+             "the real simulator with a watchdog for runs that never end.",
+        technique="Coq proof (counter invariant over schedules) + trace acceptance and monitor "
+                  "evaluated by vm_compute",
+        design_ref="DESIGN.md section 6/C10"),
 }
 
 NOT_YET = "check not built yet in this round (planned: Coq model + theorems + correspondence, see DESIGN.md section 6)"
